@@ -44,6 +44,15 @@ Theorem C16_batch_read : forall s ks, Inv s -> m_active s = false ->
 Proof. exact batch_get_is_db. Qed.
 Print Assumptions C16_batch_read.
 
+(* reads of what is committed (the way requests read the epoch record): the database's record,
+   whatever the cache holds and whatever an open transaction has pending *)
+Theorem C16_read_committed : forall s k, Inv s ->
+  snd (get_committed s k false) = match kget (m_db s) k with Some r => Ok r | None => Err ENotFound end /\
+  m_db (fst (get_committed s k false)) = m_db s /\ m_mods (fst (get_committed s k false)) = m_mods s /\
+  m_active (fst (get_committed s k false)) = m_active s.
+Proof. exact get_committed_spec. Qed.
+Print Assumptions C16_read_committed.
+
 (* after a flush the next read of the epoch record reflects storage *)
 Theorem C16_flush : forall s, m_active s = false ->
   snd (get_record (flush s) KAzks false) = match kget (m_db s) KAzks with Some r => Ok r | None => Err ENotFound end.
